@@ -46,7 +46,7 @@ class StatementSplitter:
         # Everything after here is ttype = T.Keyword
         # Also to note, once entered an If statement you are done and basically
         # returning
-        unified = value.upper()
+        unified = ' '.join(value.upper().split())
 
         # three keywords begin with CREATE, but only one of them is DDL
         # DDL Create though can contain more words such as "or replace"
